@@ -459,7 +459,7 @@ Proof.
         eapply orel_bind; [apply eval_indexes_rel; eauto|]. intros q2 [path1 k1] [path2 k2] Hle2 Hbq2 [Hp Hk]. simpl in Hp, Hk. subst path2.
         unfold here. rewrite (mr_pc _ _ _ Hk), (mr_out _ _ _ Hk). destruct (stmt_at code (m_pc k2)); cbn [bind]; [|reflexivity].
         pose proof (lookup_var_rel q2 x _ _ (mr_sc _ _ _ Hk)) as L2.
-        destruct (lookup_var x (m_scopes k1)) as [d1|], (lookup_var x (m_scopes k2)) as [d2|]; try contradiction; [|eapply rt_err_rel; exact Hk].
+        destruct (lookup_var x (m_scopes k1)) as [d1|], (lookup_var x (m_scopes k2)) as [d2|]; try contradiction; [|reflexivity].
         eapply orel_bind; [apply assign_path_rel; eauto; eapply vrel_mono; eauto|].
         intros q3 j1 j2 Hle3 Hbq3 Hj. apply orel_ok; [exact Hbq3|]. apply mrel_next. exact Hj.
   - (* expression statement *)
